@@ -257,7 +257,7 @@ impl Prop for C11 {
                 for (oi, (a, b)) in base.renders.iter().zip(st.renders.iter()).enumerate() {
                     if a != b {
                         violation.get_or_insert(Violation {
-                            class: format!("render_differs:{}", s.replicas[ri].role.split('@').next().unwrap_or("").replace("logging-", "").replace("env-", "").replace("migrating-", "")),
+                            class: format!("render_differs:{}", s.replicas[ri].role.split('@').next().unwrap_or("").replace("logging-", "").replace("env-", "").replace("migrating-", "").replace("probing-", "").replace("reentrant-", "").replace("parking-", "")),
                             detail: format!(
                                 "after step {si}, options {}: baseline renders\n{a}\nreplica {} renders\n{b}",
                                 s.opts[oi].to_j().to_string(),
